@@ -99,11 +99,13 @@ impl AtomicIncrementalAverage64 {
     }
 
     /// take a joined u64 and return its two u32s: (counter,average)
+    #[cfg_attr(kani, kani::ensures(|r: &(u32, f32)| r.0 as u64 == joined % (1u64 << 32) && r.1.to_bits() as u64 == joined / (1u64 << 32)))]
     fn split_joined(joined: u64) -> (u32, f32) {
         ( (joined & ((1<<32)-1)) as u32, f32::from_bits((joined >> 32) as u32) )
     }
 
     /// take the two u32s (counter,average) and return the joined u64
+    #[cfg_attr(kani, kani::ensures(|r: &u64| *r % (1u64 << 32) == counter as u64 && *r / (1u64 << 32) == average.to_bits() as u64))]
     fn join_split(counter: u32, average: f32) -> u64 {
         (counter as u64) | ((f32::to_bits(average) as u64) << 32)
     }
